@@ -91,7 +91,10 @@ TOKS = [b'FLAGS', b'UID', b'ENVELOPE', b'BODY', b'BODYSTRUCTURE', b'INTERNALDATE
 KEYS = [b'ALL', b'SEEN', b'UNSEEN', b'NEW', b'OLD', b'FROM x', b'FROM "\xff"', b'SUBJECT {1+}\r\n\xff', b'HEADER X ""', b'HEADER', b'BODY x', b'TEXT ""', b'LARGER 1', b'LARGER -1', b'SMALLER 99999999999999999999',
         b'BEFORE 1-Jan-2020', b'ON 32-Jan-2020', b'SINCE 1-Foo-2020', b'SENTBEFORE "1-Jan-2020"', b'SENTON 1-Jan-99999', b'KEYWORD x', b'KEYWORD \\Seen', b'UNKEYWORD', b'UID 1:*', b'UID', b'1:*', b'NOT', b'OR',
         b'OR ALL', b'NOT NOT NOT ALL', b'()', b'(ALL', b'EMAILID x', b'THREADID Tabc', b'MODSEQ 1', b'X-BOGUS', b'CHARSET', b'DELETED UNDELETED', b'DRAFT', b'RECENT', b'BCC x CC y TO z']
-DATES = [b' 1-Jan-2020 10:00:00 +0000', b'01-Jan-2020 10:00:00 +0000', b'32-Jan-2020 10:00:00 +0000', b'01-Jan-2020 25:00:00 +0000', b'01-Jan-2020', b'x', b'', b'01-Jan-99999 00:00:00 +0000', b'01-Jan-2020 10:00:00 +9999']
+DATES = [b' 1-Jan-2020 10:00:00 +0000', b'01-Jan-2020 10:00:00 +0000', b'32-Jan-2020 10:00:00 +0000', b'01-Jan-2020 25:00:00 +0000', b'01-Jan-2020', b'x', b'', b'01-Jan-99999 00:00:00 +0000', b'01-Jan-2020 10:00:00 +9999',
+         # the ends of the calendar in zones that push them over the edge; years and zones that strptime takes and the grammar does not
+         b'31-Dec-9999 23:59:59 -1200', b'01-Jan-0001 00:00:00 +1400', b'01-Jan-0099 00:00:00 +0000', b'01-Jan-1800 00:00:00 +0000', b'01-Jan-2020 00:00:00 +000030',
+         b'01-Jan-2020 00:00:00 Z', b'01-Jan-2020 00:00:00 +01:00', b'01-Jan-99 00:00:00 +0000', b'31-Dec-9999 23:59:59 -1200', b'01-Jan-0001 00:00:00 +1400']
 FLAGSETS = [b'\\Seen', b'\\Seen \\Deleted', b'', b'\\Recent', b'\\*', b'kw', b'\\Bogus', b'\\', b'\\Seen(', b'"x"', b'\xff', b'NIL', b'a b c d e f']
 
 
